@@ -251,6 +251,13 @@ async def run_many_downloads(flavor, p, cnt, v, sigs):
     if out.kind == "hang":
         v("download-stalled:many-responses" + (":after-abandoned-responses" if abandon else ""), f"response {done['n'] + 1} of {p['count']} x {size} bytes on one connection never "
           f"arrived: the server's view of the client's connection window is {win} (credit for consumed DATA not returned)", ctx)
+    elif abandon and out.kind == "ok" and out.value is True and win is not None and win < (65535 + 2 ** 24) // 4:
+        # credit conservation: the h2 package batches connection-level WINDOW_UPDATEs (at most half the window is ever owed),
+        # so once everything has been read or given up the server must see well over a quarter of the window again. A leak
+        # that is not (yet) a stall shows here: what is left of the window keeps circulating, only ever more slowly.
+        cnt["oracle_credit_conserved"] = cnt.get("oracle_credit_conserved", 0) + 1
+        v("connection-credit-leaked:after-abandoned-responses", f"after {p['count']} responses of {size} bytes ({abandon}: given up) and "
+          f"three complete downloads the server may send only {win} more bytes on the connection (initial window {65535 + 2 ** 24})", ctx)
     elif out.kind != "ok" or out.value is not True:
         v(f"download-failed:many-responses:{exc_name(out.exc) if out.kind == 'exc' else 'short'}", f"{out!r}", ctx)
     elif len(net.transports) != 1:
@@ -398,7 +405,7 @@ def plan(tier, seed):
     for i, (size, count) in enumerate([(16384, 1100), (1, 200), (16385, 600)] + ([(100, 3000), (16384, 2600)] if tier != "quick" else [])):
         for f in (flavors if tier != "quick" or size == 16384 else [flavors[i % 3]]):
             cases.append({"flavor": f, "params": [{"dir": "many", "size": size, "count": count}], "seed": seed + 200 + i})
-    for i, (size, count, how) in enumerate([(65536, 500, "head"), (65536, 700, "chunk")] + ([(20000, 1000, "head"), (200_000, 100, "chunk")] if tier != "quick" else [])):
+    for i, (size, count, how) in enumerate([(65536, 500, "head"), (65536, 700, "chunk"), (16000, 1100, "head")] + ([(20000, 1000, "head"), (200_000, 100, "chunk")] if tier != "quick" else [])):
         for f in (flavors if tier != "quick" else [flavors[i % 3], flavors[(i + 1) % 3]]):
             cases.append({"flavor": f, "params": [{"dir": "many", "size": size, "count": count, "abandon": how}], "seed": seed + 250 + i})
     for i, (slack, size) in enumerate([(100_000, 1_000_000), (2048, 70_000), (16384 * 3 + 5, 300_000)] if tier != "quick" else [(100_000, 1_000_000)]):
